@@ -86,6 +86,11 @@ func main() {
 	if next > 1 {
 		prev = evs[next-2].Offset
 	}
+	var all []ebu.Offset
+	for _, e := range evs {
+		all = append(all, e.Offset)
+	}
+	r2 := rand.New(rand.NewPCG(seed, 0xC15))
 	fmt.Fprintf(ack, "START %d\n", next)
 	dead, cancel := context.WithCancel(ctx)
 	cancel()
@@ -100,22 +105,36 @@ func main() {
 			}
 			fmt.Fprintf(ack, "A %d %d %s\n", i, next, off)
 			prev, last = last, off
+			all = append(all, off)
 			next++
 		case "S", "R":
 			sub := fmt.Sprintf("sub-%d", i%3)
 			if op == "R" {
 				// a save under a dead context, of an older offset: if the store claims it succeeded, that
 				// is what must be found after reopening (and the live save below is skipped)
+				fmt.Fprintf(ack, "I %d %s %s\n", i, sub, prev) // intent, logged before the call
 				if err := st.SaveOffset(dead, sub, prev); err == nil {
 					fmt.Fprintf(ack, "S %d %s %s\n", i, sub, prev)
 					continue
 				}
 			}
-			if err := st.SaveOffset(ctx, sub, last); err != nil {
+			// which position is saved: mostly the newest event's; sometimes an older one (the consumer
+			// rewinds / zig-zags), sometimes one beyond this log (positions of another log: the store is
+			// only the subscription store of that bus)
+			off := last
+			switch x := r2.IntN(10); {
+			case x < 2 && len(all) > 0:
+				off = all[r2.IntN(len(all))]
+			case x == 2:
+				n, _ := strconv.Atoi(string(last))
+				off = ebu.Offset(strconv.Itoa(n + 1 + r2.IntN(60)))
+			}
+			fmt.Fprintf(ack, "I %d %s %s\n", i, sub, off) // intent, logged before the call
+			if err := st.SaveOffset(ctx, sub, off); err != nil {
 				fmt.Fprintln(os.Stderr, "save:", err)
 				os.Exit(5)
 			}
-			fmt.Fprintf(ack, "S %d %s %s\n", i, sub, last)
+			fmt.Fprintf(ack, "S %d %s %s\n", i, sub, off)
 		}
 	}
 	if doClose {
